@@ -299,11 +299,13 @@ theorem simplifyCore_spec_gen (me : Event)
     simpa using hs
   have hnodn := removeRepeated_nodup (splitReflexive me).2
   have hnodr := removeRepeated_nodup (splitReflexive me).1
-  have hnodr' : (reduceGen (removeRepeated (splitReflexive me).1) []).NodupVals :=
-    reduceGen_nodup _ _ (by intro p hp; cases hp)
-  have hredkeys : ∀ p ∈ reduceGen (removeRepeated (splitReflexive me).1) [], p.1.isCf = false := by
+  have hnodr' : (dropNone (reduceGen (removeRepeated (splitReflexive me).1) [])).NodupVals :=
+    dropNone_nodup _ (reduceGen_nodup _ _ (by intro p hp; cases hp))
+  have hredkeys : ∀ p ∈ dropNone (reduceGen (removeRepeated (splitReflexive me).1) []), p.1.isCf = false := by
     intro p hp
-    rcases reduceGen_key _ _ p hp with ⟨q, hq, _⟩ | ⟨q, _, hk⟩
+    obtain ⟨p', hp', hk'⟩ := dropNone_key _ p hp
+    rw [← hk']
+    rcases reduceGen_key _ _ p' hp' with ⟨q, hq, _⟩ | ⟨q, _, hk⟩
     · cases hq
     · rw [← hk]; exact bkey_not_cf _
   -- where the bindings come from
@@ -315,9 +317,9 @@ theorem simplifyCore_spec_gen (me : Event)
     intro k x hh
     obtain ⟨hm, hcase⟩ := (hsplit₁ _).1 (removeRepeated_has _ k x hh)
     exact ⟨hm, bkey_eq_rkey k hcase⟩
-  have inR' : ∀ k x, (reduceGen (removeRepeated (splitReflexive me).1) []).Has k x → (k, x) ∈ rd me := by
+  have inR' : ∀ k x, (dropNone (reduceGen (removeRepeated (splitReflexive me).1) [])).Has k x → (k, x) ∈ rd me := by
     intro k x hh
-    rcases (reduceGen_has _ _ k x).1 hh with h | ⟨p, hp, hk, hx⟩
+    rcases (reduceGen_has _ _ k x).1 (dropNone_has _ k x hh) with h | ⟨p, hp, hk, hx⟩
     · exact absurd h (VMap.has_nil _ _)
     · obtain ⟨hm, hbk⟩ := inR p.1 x ⟨p.2, hp, hx⟩
       exact (mem_rd me k x).2 ⟨(p.1, x), hm, by rw [← hbk]; exact hk, rfl⟩
@@ -375,7 +377,7 @@ theorem simplifyCore_spec_gen (me : Event)
         show k.ivs = [i]
         rw [hj, hij]
       cases h2 : anyInconsistent (removeRepeated (splitReflexive me).2)
-          (reduceGen (removeRepeated (splitReflexive me).1) []) with
+          (dropNone (reduceGen (removeRepeated (splitReflexive me).1) [])) with
       | error e => simp
       | ok b2 =>
         cases b2 with
@@ -392,7 +394,7 @@ theorem simplifyCore_spec_gen (me : Event)
           cases ha : popAll (removeRepeated (splitReflexive me).2) with
           | error e => simp
           | ok a =>
-            cases hb : popAll (reduceGen (removeRepeated (splitReflexive me).1) []) with
+            cases hb : popAll (dropNone (reduceGen (removeRepeated (splitReflexive me).1) [])) with
             | error e => simp
             | ok b =>
               simp only [pure, Except.pure, Except.ok.injEq, reduceCtorEq, false_implies, Option.some.injEq,
@@ -431,9 +433,9 @@ theorem simplifyCore_spec_gen (me : Event)
                     refine ⟨?_, hcase⟩
                     rw [← hx]; exact hp
                   obtain ⟨vals0, hpv0, hxv0⟩ := (removeRepeated_has_some _ p.1 i).2 hin
-                  have hhas : (reduceGen (removeRepeated (splitReflexive me).1) []).Has k (some i) :=
-                    (reduceGen_has _ _ k (some i)).2
-                      (Or.inr ⟨(p.1, vals0), hpv0, by rw [bkey_eq_rkey _ hcase]; exact hk, hxv0⟩)
+                  have hhas : (dropNone (reduceGen (removeRepeated (splitReflexive me).1) [])).Has k (some i) :=
+                    (dropNone_has_some _ k i).2 ((reduceGen_has _ _ k (some i)).2
+                      (Or.inr ⟨(p.1, vals0), hpv0, by rw [bkey_eq_rkey _ hcase]; exact hk, hxv0⟩))
                   obtain ⟨vals, hpv, hxv⟩ := hhas
                   have := singleton_of_length vals (some i) hxv (hlen _ (Or.inr hpv))
                   subst this
